@@ -307,7 +307,7 @@ async def scenario_dbos(world, spec):
     it = float(tape.choice([2, 4], "idle_timeout"))
     world.cfg["idle_timeout"] = it
     world._it = it
-    lat_k = tape.choice([0, 0, 1, 4], "lc.latency")
+    lat_k = tape.choice([0, 1, 4, 4], "lc.latency")
     lat = (lat_k / 1024, lat_k / 1024)
     if lat_k:
         world.probe("lifecycle-latency-arm")
@@ -354,7 +354,8 @@ async def scenario_dbos(world, spec):
 
     async def sender(i: int) -> None:
         for j in range(tape.rng_int(1, 3, f"s{i}.n")):
-            d = tape.choice([0, 1, it - 1, it, it, it + 1, 2 * it, it + 125], f"s{i}.delay")
+            # (it - one or two lifecycle round trips: the event then reaches the run while the release timer is inside begin_release)
+            d = tape.choice([0, 1, it - 1, it, it, it - lat[0], it - 2 * lat[0], it + 1, 2 * it, it + 125], f"s{i}.delay")
             if d:
                 await asyncio.sleep(d)
             _, hs = _lc_state(world)
